@@ -127,7 +127,8 @@ class Store:
         from dvc_data.hashfile.meta import Meta
         from dvc_data.index import DataIndexEntry
 
-        meta = {"none": None, "empty": Meta(), "f": Meta(size=3), "d": Meta(isdir=True, nfiles=2)}[e["meta"]]
+        meta = {"none": None, "empty": Meta(), "f": Meta(size=3), "fr": Meta(size=3, remote="r1"),
+                "d": Meta(isdir=True, nfiles=2)}[e["meta"]]
         hi = {"none": None, "h": HashInfo("md5", self.h), "dirhash": HashInfo("md5", self.dirhash)}[e["hash"]]
         return DataIndexEntry(key=key, meta=meta, hash_info=hi, loaded={"N": None, "T": True, "F": False}[e["loaded"]])
 
@@ -139,6 +140,8 @@ class Store:
             meta = "empty"
         elif md == {"size": 3}:
             meta = "f"
+        elif md == {"size": 3, "remote": "r1"}:
+            meta = "fr"
         elif md == {"isdir": True, "nfiles": 2}:
             meta = "d"
         elif set(md) <= {"md5", "size"} and md.get("md5") in self.kid.values():
@@ -179,6 +182,12 @@ def run_trace(ops, root):
         if op == "Set":
             key = tuple(a["k"].split("/"))
             st.idx[key] = st.entry(key, a["e"])
+        elif op == "SetInPlace":
+            # the object the index hands out is completed in place and stored again under its key
+            key = tuple(a["k"].split("/"))
+            obj, want = st.idx._trie[key], st.entry(key, a["e"])
+            obj.meta, obj.hash_info, obj.loaded = want.meta, want.hash_info, want.loaded
+            st.idx[key] = obj
         elif op == "Del":
             del st.idx[tuple(a["k"].split("/"))]
         elif op == "Elsewhere":
@@ -254,6 +263,12 @@ def directed_ops():
         out.append(base + [{"op": "Commit"}, {"op": "Iter"}, {"op": "Commit"}, {"op": "Reopen"}, {"op": "Iter"}])
         out.append(base + [{"op": "Iter"}, {"op": "Reopen"}, {"op": "Attach"}, {"op": "Iter"}, {"op": "Commit"}, {"op": "Reopen"}])
         out.append(base + [{"op": "Export", "kind": "json"}, {"op": "Export", "kind": "db"}, {"op": "Commit"}, {"op": "Reopen"}])
+        # a key assigned twice in one session: completed in place and stored again; replaced by an entry that differs in
+        # the remote name only
+        out.append(base + [{"op": "Commit"}, {"op": "SetInPlace", "k": "p", "e": E("none", "h", "N")}, {"op": "SetInPlace", "k": "d", "e": E("d", "dirhash", "T")},
+                           {"op": "Commit"}, {"op": "Reopen"}])
+        out.append(base + [{"op": "Set", "k": "p", "e": E("fr", "h", "N")}, {"op": "Commit"}, {"op": "Reopen"}, {"op": "Set", "k": "p", "e": E("f", "h", "N")},
+                           {"op": "Commit"}, {"op": "Reopen"}])
         # another index of the same process written under the same keys, between the commit and the reopen / the reads
         out.append(base + [{"op": "Commit"}, {"op": "Elsewhere", "k": "p", "e": E("none", "none", "N")}, {"op": "Elsewhere", "k": "d", "e": E("f", "h", "T")},
                            {"op": "Reopen"}, {"op": "Attach"}, {"op": "Iter"}, {"op": "Commit"}, {"op": "Reopen"}])
